@@ -4,6 +4,7 @@ package main
 // Sound for the operations it models; everything else yields the type's range.
 
 import (
+	"strings"
 	"go/token"
 	"go/types"
 	"math"
@@ -376,6 +377,9 @@ func (e *IntEnv) structural(v ssa.Value, b *ssa.BasicBlock, depth int) Itv {
 func (e *IntEnv) fromGuard(g Guard, v ssa.Value, depth int) Itv {
 	all := Itv{negInf, posInf}
 	g = g.norm()
+	if iv, ok := e.fromValidator(g, v, depth); ok {
+		return iv
+	}
 	bo, ok := g.Cond.(*ssa.BinOp)
 	if !ok {
 		return all
@@ -423,7 +427,11 @@ func (e *IntEnv) fromGuard(g Guard, v ssa.Value, depth int) Itv {
 		}
 	}
 	// interval of the other side, evaluated at the guard's block
-	o := e.at(other, g.If.Block(), depth+4)
+	var gb *ssa.BasicBlock
+	if g.If != nil {
+		gb = g.If.Block()
+	}
+	o := e.at(other, gb, depth+4)
 	switch op {
 	case token.LSS:
 		return Itv{negInf, satAdd(o.Hi, -1)}
@@ -448,6 +456,99 @@ func (e *IntEnv) fromGuard(g Guard, v ssa.Value, depth int) Itv {
 		}
 	}
 	return all
+}
+
+// fromValidator: the guard tests the outcome of a module-local validation helper that was handed v:
+//   if !validSize(v) { return err }            (boolean result)
+//   if err := check(v); err != nil { return }   (error result, nil on this edge)
+// What the helper knows about the corresponding parameter at every return that can produce this outcome holds
+// for v here (the hull over those returns).
+func (e *IntEnv) fromValidator(g Guard, v ssa.Value, depth int) (Itv, bool) {
+	if depth > 8 || !isInteger(v.Type()) {
+		return Itv{}, false
+	}
+	var call *ssa.Call
+	outcome := 0 // 1 bool true, 2 bool false, 3 error nil
+	resIdx := 0
+	switch c := g.Cond.(type) {
+	case *ssa.Call:
+		call = c
+		outcome = 2
+		if g.Pol {
+			outcome = 1
+		}
+	case *ssa.BinOp:
+		x, isNil, ok := nilFact(g)
+		if !ok || !isNil || !isErrorType(x.Type()) {
+			return Itv{}, false
+		}
+		switch y := x.(type) {
+		case *ssa.Call:
+			call = y
+		case *ssa.Extract:
+			call, _ = y.Tuple.(*ssa.Call)
+			resIdx = y.Index
+		}
+		outcome = 3
+	}
+	if call == nil || call.Call.IsInvoke() {
+		return Itv{}, false
+	}
+	h := call.Call.StaticCallee()
+	if h == nil || h.Blocks == nil || !strings.HasPrefix(funcPkgPath(h), modPath) {
+		return Itv{}, false
+	}
+	k := -1
+	sv := stripIntConv(v)
+	for i, a := range call.Call.Args {
+		if i < len(h.Params) && (e.same(a, v) || stripIntConv(a) == sv || e.same(stripIntConv(a), sv)) {
+			k = i
+		}
+	}
+	if k < 0 || !isInteger(h.Params[k].Type()) {
+		return Itv{}, false
+	}
+	prm := h.Params[k]
+	e2 := &IntEnv{}
+	var hull Itv
+	first := true
+	for _, ret := range returnsOf(h) {
+		res := retResults(ret)
+		if resIdx >= len(res) {
+			return Itv{}, false
+		}
+		rv := res[resIdx]
+		iv := e2.at(prm, ret.Block(), depth+4)
+		switch outcome {
+		case 1, 2:
+			want := outcome == 1
+			if b, isb := constBool(rv); isb {
+				if b != want {
+					continue
+				}
+			} else {
+				for _, gg := range expandGuards([]Guard{{Cond: rv, Pol: want}}) {
+					iv = iv.meet(e2.fromGuard(gg, prm, depth+4))
+				}
+			}
+		case 3:
+			// a return whose error is provably non-nil cannot produce this outcome; one that may or may not be
+			// nil contributes what is known at it
+			if !isNilConst(rv) && pathsProg != nil && newNilEnv(pathsProg).At(rv, ret.Block()) == NonNil {
+				continue
+			}
+		}
+		if first {
+			hull, first = iv, false
+		} else {
+			hull = hull.join(iv)
+		}
+	}
+	if first {
+		return Itv{}, false
+	}
+	// the parameter's type may be narrower/wider than v's: only bounds inside v's own range are meaningful
+	return hull, true
 }
 
 // nonZeroAt: v provably != 0 in block b (interval excludes zero, or a dominating v != 0 / v == 0 guard).
